@@ -4,9 +4,14 @@ import (
 	"fmt"
 	"path/filepath"
 	"strings"
+	"time"
 
 	"github.com/avfs/avfs"
 	"github.com/avfs/avfs/vfs/memfs"
+
+	// the toolchain's Windows path/filepath, retargeted to this host by lib/vcheck/winportgen.py (generated)
+	"verifharness/winfp"
+	winlite "verifharness/winfp/filepathlite"
 )
 
 func init() { commands["path"] = runPath }
@@ -59,7 +64,22 @@ func pathOne(osn, s string) string {
 			tok(avfs.FromSlash(v, s)), tok(avfs.ToSlash(v, s)), tok(avfs.VolumeName(v, s)), avfs.VolumeNameLen(v, s), tok(a))
 	})
 	if osn != "linux" {
-		return impl
+		// second segment: Go's own Windows path/filepath (package winfp).  Abs of Windows proper asks the
+		// system (GetFullPathName) and is not retargetable; the oracle for avfs.Abs(path, curDir) is the
+		// portable definition of path/filepath.unixAbs over the Windows functions: Clean if IsAbs, else Join.
+		win := guard(func() string {
+			d, f := winfp.Split(s)
+			a := ""
+			if winfp.IsAbs(s) {
+				a = winfp.Clean(s)
+			} else {
+				a = winfp.Join(cur, s)
+			}
+			return fmt.Sprintf("clean=%s split=%s,%s dir=%s base=%s isabs=%s from=%s to=%s vol=%s vnl=%d abs=%s",
+				tok(winfp.Clean(s)), tok(d), tok(f), tok(winfp.Dir(s)), tok(winfp.Base(s)), b01(winfp.IsAbs(s)),
+				tok(winfp.FromSlash(s)), tok(winfp.ToSlash(s)), tok(winfp.VolumeName(s)), winlite.VolumeNameLen(s), tok(a))
+		})
+		return impl + " || " + win
 	}
 	host := guard(func() string {
 		d, f := filepath.Split(s)
@@ -74,6 +94,92 @@ func pathOne(osn, s string) string {
 			tok(filepath.FromSlash(s)), tok(filepath.ToSlash(s)), tok(filepath.VolumeName(s)), len(filepath.VolumeName(s)), tok(a))
 	})
 	return impl + " || " + host
+}
+
+// Rel is the one lexical function with an unbounded loop, and Go 1.23.5's Windows filepath.Rel (and avfs' copy
+// of it) never returns on e.g. Rel(`\\a\b`, `\\a\b\`) (known finding C13-rel-unc-root-loop).  The oracle copy
+// carries an exact iteration budget (winfp.ErrRelLoop); avfs cannot be instrumented, so its Rel runs in a
+// goroutine with a deadline and a call that misses it is shown as "loop".  An abandoned goroutine spins until
+// the process ends, so only the first maxRelLeaks inputs on which the oracle loops are really tried on avfs
+// (deadline 300 ms); on the others avfs is ASSUMED to loop as well (counted as outcome:rel-loop-assumed).
+// Where the oracle returns, avfs gets 3 s (the call takes microseconds); not returning is reported as rel=loop
+// against the oracle's answer, and after maxRelHangs such inputs avfs.Rel is no longer called in this run
+// (rel=notcalled, which no model or oracle answer equals).
+var relLeaks, relHangs, relAssumed int
+
+const (
+	maxRelLeaks = 2
+	maxRelHangs = 6
+)
+
+// one worker goroutine serves the calls; a worker that misses its deadline is abandoned and replaced
+type relReq struct {
+	v    *memfs.MemFS
+	a, c string
+}
+
+var (
+	relReqCh chan relReq
+	relResCh chan string
+	relTimer *time.Timer
+)
+
+func relWorker(req chan relReq, res chan string) {
+	for r := range req {
+		res <- guard(func() string { return showRel(avfs.Rel(r.v, r.a, r.c)) })
+	}
+}
+
+func avfsRel(v *memfs.MemFS, a, c string, oracleLoops bool) string {
+	if relHangs >= maxRelHangs {
+		return "notcalled"
+	}
+	if oracleLoops && relLeaks >= maxRelLeaks {
+		relAssumed++
+		return "loop"
+	}
+	if relReqCh == nil {
+		relReqCh, relResCh = make(chan relReq), make(chan string, 1)
+		go relWorker(relReqCh, relResCh)
+	}
+	d := 3 * time.Second
+	if oracleLoops {
+		d = 300 * time.Millisecond
+	}
+	relReqCh <- relReq{v, a, c}
+	if relTimer == nil {
+		relTimer = time.NewTimer(d)
+	} else {
+		relTimer.Reset(d)
+	}
+	select {
+	case r := <-relResCh:
+		if !relTimer.Stop() {
+			<-relTimer.C
+		}
+		return r
+	case <-relTimer.C:
+		if oracleLoops {
+			relLeaks++
+		} else {
+			relHangs++
+		}
+		relReqCh = nil // the worker is stuck in Rel for ever: abandon it
+		return "loop"
+	}
+}
+
+func winRel(a, c string) (res string) {
+	defer func() {
+		if r := recover(); r != nil {
+			if r == winfp.ErrRelLoop {
+				res = "loop"
+			} else {
+				res = "PANIC"
+			}
+		}
+	}()
+	return showRel(winfp.Rel(a, c))
 }
 
 func showRel(r string, err error) string {
@@ -91,14 +197,24 @@ func showMatch(m bool, err error) string {
 
 func pathTwo(osn, a, c string) string {
 	v := fsOf(osn)
+	if osn != "linux" {
+		wrel := winRel(a, c)
+		win := guard(func() string {
+			m, merr := winfp.Match(a, c)
+			return fmt.Sprintf("join=%s join3=%s rel=%s match=%s", tok(winfp.Join(a, c)), tok(winfp.Join(c, a, c)), wrel, showMatch(m, merr))
+		})
+		irel := avfsRel(v, a, c, wrel == "loop")
+		impl := guard(func() string {
+			m, merr := avfs.Match(v, a, c)
+			return fmt.Sprintf("join=%s join3=%s rel=%s match=%s", tok(avfs.Join(v, a, c)), tok(avfs.Join(v, c, a, c)), irel, showMatch(m, merr))
+		})
+		return impl + " || " + win
+	}
 	impl := guard(func() string {
 		r, rerr := avfs.Rel(v, a, c)
 		m, merr := avfs.Match(v, a, c)
 		return fmt.Sprintf("join=%s join3=%s rel=%s match=%s", tok(avfs.Join(v, a, c)), tok(avfs.Join(v, c, a, c)), showRel(r, rerr), showMatch(m, merr))
 	})
-	if osn != "linux" {
-		return impl
-	}
 	host := guard(func() string {
 		r, rerr := filepath.Rel(a, c)
 		m, merr := filepath.Match(a, c)
@@ -172,6 +288,13 @@ func allStrings(alpha []string, n int, f func(string)) {
 	rec("", n)
 }
 
+// winVolumePrefixes: one representative (and a case/separator variant) per branch of volumeNameLen
+var winVolumePrefixes = []string{
+	`C:`, `c:`, `1:`, `é:`, `C:\`, `\`, `\\`, `\\a`, `\\a\`, `\\a\b`, `\\A\b`, `//a/b`, `\\a\b\c`,
+	`\\.`, `\\.\`, `\\.\a`, `\\.\C:`, `//./a`, `\\?`, `\\?\`, `\\?\a`, `\\?\C:`, `\??`, `\??\`, `\??\a`, `\??\C:`, `/??/a`,
+	`\\.\UNC`, `\\.\UNC\`, `\\.\UNC\a`, `\\.\UNC\a\b`, `\\.\unc\a\b`, `//./Unc/a/b`, `\\?\UNC\a\b`, `\??\UNC\a\b`, `\\.\UNCa`, `\\.x`, `\?`, `\?a`,
+}
+
 func runPath(cfg config) {
 	o := newOut(cfg.dir, cfg.name)
 	defer o.close(cfg.name)
@@ -183,6 +306,7 @@ func runPath(cfg config) {
 	}
 	o.rule = "exhaustive enumeration of all strings up to a length bound over the 13-symbol alphabet {a B . / \\ : ? * [ ] - ^ é} for the one-argument functions " +
 		"(Clean Split Dir Base IsAbs FromSlash ToSlash VolumeName VolumeNameLen Abs), all pairs up to a smaller bound for Join/Rel/Match plus pairs over focused sub-alphabets, " +
+		"for windows also every volume prefix of a fixed list (drive designators, UNC, \\\\.\\, \\\\?\\, \\??\\, \\\\.\\UNC\\ in several spellings) followed by every string of length <= 3 over {a . \\ / : ?}, and all pairs of prefix+suffix; " +
 		"PathIterator walks with ReplacePart at every position of absolute paths over {a b . /} x replacement targets; both OS types; then seeded random longer strings. " +
 		"A case is non-trivial when the function results are not all identity (distinct result vectors are counted)"
 	full := []string{"a", "B", ".", "/", "\\", ":", "?", "*", "[", "]", "-", "^", "é"}
@@ -204,6 +328,12 @@ func runPath(cfg config) {
 		if strings.Contains(obs, "PANIC") {
 			o.count("outcome:panic")
 		}
+		if strings.Contains(obs, "rel=loop") {
+			o.count("outcome:rel-loop")
+		}
+		for ; relAssumed > 0; relAssumed-- {
+			o.count("outcome:rel-loop-assumed")
+		}
 		o.emit(line, obs, key)
 	}
 	for _, osn := range []string{"linux", "windows"} {
@@ -220,6 +350,28 @@ func runPath(cfg config) {
 					emit("one " + osn + " " + tok(s))
 				}
 			})
+		}
+		if osn == "windows" {
+			// volume prefixes the 13-symbol alphabet cannot spell (device and UNC forms, drive designators),
+			// each followed by every string of length <= 3 over {a . \ / : ?}; and all pairs of
+			// prefix+short suffix for Join/Rel
+			var tails, stails []string
+			allStrings([]string{"a", ".", "\\", "/", ":", "?"}, 3, func(s string) { tails = append(tails, s) })
+			allStrings([]string{"a", ".", "\\"}, 2, func(s string) { stails = append(stails, s) })
+			var vols []string
+			for _, pfx := range winVolumePrefixes {
+				for _, t := range tails {
+					emit("one " + osn + " " + tok(pfx+t))
+				}
+				for _, t := range stails {
+					vols = append(vols, pfx+t)
+				}
+			}
+			for _, a := range vols {
+				for _, c := range vols {
+					emit("two " + osn + " " + tok(a) + " " + tok(c))
+				}
+			}
 		}
 		// pairs
 		var small []string
